@@ -612,3 +612,13 @@ from props import C04 as _C04
 for _sp in ("grid", "graph"):
     for _rm in (False, True):
         CASES.append(_C04.marshal_case(_sp, _rm))
+
+
+def LATE_CASES():
+    """the C entry points hand state and chemostat map to Init in the cell-major layout of the contracts above (a chemostat
+    flag landing on another entry makes a conserved species a chemostated one): C14's dispatch and transposition cases"""
+    if z3 is None:
+        return []
+    from props import C14 as _C14
+    return [_C14.dispatch_case("grid", "none", "euler"), _C14.dispatch_case("graph", "none", "gillespie"),
+            _C14.transposition_case("int"), _C14.transposition_case("double")]
